@@ -124,6 +124,14 @@ Proof.
   cbn; split; [assumption | apply tab_le_refl].
 Qed.
 
+Lemma upd_weights_ok : forall t n u, tab_ok t ->
+    tab_ok (fst (t_upd_weights t n u)) /\ tab_le t (fst (t_upd_weights t n u)).
+Proof.
+  intros t n u H. unfold t_upd_weights.
+  destruct (aget Nat.eq_dec (t_fac t) n); cbn; (split; [|intros l R; exact R]); [|assumption].
+  destruct H; split; assumption.
+Qed.
+
 (** * handles *)
 Lemma get_graph_set_nth_other : forall os k o h, h <> k -> get_graph (set_nth os k o) h = get_graph os h.
 Proof. intros. unfold get_graph. rewrite nth_error_set_nth_other; [reflexivity | assumption]. Qed.
